@@ -72,6 +72,12 @@ type remSend struct {
 
 func tm(id string) *remote.TestMessage { return &remote.TestMessage{Data: []byte(id)} }
 
+func init() {
+	// as an application that sends its own generated types would (the oracle reads the delivered message
+	// objects at the END of the execution: a delivered message belongs to its receiver)
+	remote.RegisterType(&remote.TestMessage{})
+}
+
 func engRemote(variants []remParams) vsched.Instance {
 	var p remParams
 	var a, b, b2, c3 *remNode
